@@ -23,7 +23,11 @@ pub fn script_to_ts(script: &serde_json::Value, nv: usize) -> (String, HashMap<u
             "tord" => { ids.insert(v, next); next += 1; s += &format!("try {{ x{v} = order(\"p{v}\"); }} catch (e) {{ x{v} = \"caught\"; }}\n"); }
             "await" => s += &format!("await {};\n", name(v)),
             "tawait" => s += &format!("try {{ await {0}; }} catch (e) {{ {0} = \"caught\"; }}\n", name(v)),
-            "comb" => s += &format!("w = Promise.{}([{}]);\n", op["k"].as_str().unwrap_or("all"), vars.join(", ")),
+            "comb" => {
+                // inputs: the variables ordered so far, in variable order
+                let ins: Vec<String> = (1..=nv as u64).filter(|v| ids.contains_key(v)).map(|v| format!("x{v}")).collect();
+                s += &format!("w = Promise.{}([{}]);\n", op["k"].as_str().unwrap_or("all"), ins.join(", "));
+            }
             "cancel" => s += &format!("__cancelOrder__({});\n", ids.get(&v).copied().unwrap_or(0)),
             _ => {}
         }
